@@ -283,6 +283,22 @@ structure SWFacts (G : MG Name) (w : World) (s : Name → Bool) (ev : Event) (g 
   keyNames : ∀ b, b ∈ nev.keys.map (·.name) ↔ b ∈ ev.keys.map (·.name)
   proj : EdgeProj G g
 
+/-- what the treatment of ONE district (line 6) uses about a counterfactual graph `g` and the relabelled event `nev` — single-world
+or not: nodes in canonical form, at most one non-self-intervened node per variable, every parent (in `G`) of a non-self-intervened
+node represented by a parent node, bidirected edges of `G` represented, and no self-intervened node named like a
+non-self-intervened one -/
+structure DFacts (G : MG Name) (s : Name → Bool) (g : MG Var) (nev : Event) : Prop where
+  wf : g.WF
+  nodeOK : ∀ x ∈ g.nodes, KeyOK G x
+  inj : ∀ x ∈ g.nodes, ∀ y ∈ g.nodes, isNotSelfIntervened x = true → isNotSelfIntervened y = true → x.name = y.name → x = y
+  rep : ∀ n ∈ g.nodes, isNotSelfIntervened n = true → ∀ m, (m, n.name) ∈ G.di → ∃ x, (x, n) ∈ g.di ∧ x.name = m
+  biRep : BiRep G g
+  sep : ∀ v ∈ g.nodes, isNotSelfIntervened v = false → ∀ n ∈ g.nodes, isNotSelfIntervened n = true → v.name ≠ n.name
+  nevVals : ValBy s nev
+  nevOK : EvOK nev
+  keysNodes : ∀ k ∈ nev.keys, k ∈ g.nodes
+  proj : EdgeProj G g
+
 theorem frag_facts {ordf : List World → List World} (hord : PermOrder ordf) {G : MG Name} (hG : G.WF)
     (hdl : ∀ e ∈ G.di, e.1 ≠ e.2) (hbl : ∀ e ∈ G.bi, e.1 ≠ e.2) {w : World} {s : Name → Bool} {ev : Event}
     (hf : Frag2 G w s ev) (hne : ev ≠ [])
